@@ -104,7 +104,7 @@ claim(
     "C15",
     technique="Hypothesis-generated module programs run through the real TorchDynamo path of simulate_format, differential (bit-equal) against a reference interpreter with hand-written straight-through quantisation; metamorphic lossless-format identity; pinned random source",
     text="Generated-input search over programs (linear / attention in every argument spelling, their unit-scaled forms, elementwise ops, norms, adds, reshapes; several root kinds) x format pairs x rounding modes: outputs and every gradient of the transformed module are bit-equal to the reference that quantises exactly the tensor operands of each linear/attention forward and the gradient of its output backward with the caller's formats; E8M23 reproduces the untransformed module bit for bit; simulate_fp8 == E4M3/E5M2 instance; quantise_fwd / quantise_bwd primitive clauses.",
-    note="Roots whose class is defined in torch.nn (bare nn.Linear, nn.Sequential, nested nn.Sequential, programs behind an nn.Sequential) are part of the domain since the fix a7da9d1; FPFormat.quantise itself is trusted here (C13/C14).",
+    note="Roots whose class is defined in torch.nn (bare nn.Linear, nn.Sequential, nested nn.Sequential, programs behind an nn.Sequential) are part of the domain since the fix a7da9d1; FPFormat.quantise itself is trusted here (C13/C14). One known finding (C15.lossless.last-ulp: a last-ulp gradient difference of the lossless E8M23 simulation in rare graphs) is reported as KNOWN-FINDING; larger differences are violations.",
     design_ref="DESIGN.md section 4 C15",
 )
 claim(
